@@ -179,7 +179,8 @@ def gen_cfg(s, mode, real_frac=0.0):
     cfg['gamma_bounds'] = [lo, hi]
     cfg['gamma_pts'] = s.randint(2, gp_hi)
     nadd = s.choice([0, 0, 1, 2])
-    cfg['additional_gammas'] = sorted(set(s.choice([0.0, 0.5, 1.0, 4.3, 10.0]) for _ in range(nadd)))
+    ag = sorted(set(s.choice([0.0, 0.5, 1.0, 4.3, 10.0]) for _ in range(nadd)))
+    cfg['additional_gammas'] = s.shuffle(ag)        # any order is legal: results must land by index, not by value
     cfg['cpus'] = s.choice([1, 2, 2, 3, 4, 5, 6, 8, 11, 16])
     if s.chance(0.06):
         cfg['cpus'] = None
@@ -206,6 +207,7 @@ def gen_cfg(s, mode, real_frac=0.0):
     cfg['speeds'] = speeds
     cfg['main_speed'] = 1e-4 if prof == 'slow_producer' else 1.0
     cfg['spawn'] = s.chance(0.25)
+    cfg['decoy'] = s.choice([None, None, None, 'single', 'multi'])
     cfg['faults'] = []
     njobs = n_jobs(cfg)
     if mode == 'fault' and njobs:
@@ -469,7 +471,82 @@ def judge(cfg, out, cache, ref):
     return ('schedule-dependence', d)
 
 
+def expected_spectra(cfg):
+    """What the cache must hold, evaluated directly (model + Numerics.make_extrap_func), with no Cache class
+    involved: an oracle for the *content*, independent of any state the cache classes keep between constructions."""
+    import dadi
+    m = cfg['model']
+    ng = 1 if cfg['cache'] == '1D' else 2
+    f = dadi.Numerics.make_extrap_func(make_model(m, Hooks(), ng))
+    g = gammas_of(cfg)
+    par = tuple(m['params'])
+    with warnings.catch_warnings():
+        warnings.simplefilter('ignore')
+        if ng == 1:
+            return [f(par + (float(x),), list(m['ns']), list(m['pts'])) for x in g], f(par + (0,), list(m['ns']), list(m['pts']))
+        return [[f(par + (float(x), float(y)), list(m['ns']), list(m['pts'])) for y in g] for x in g], None
+
+
+def check_content(cfg, ref):
+    """reference build (single process) against direct evaluation"""
+    exact = not cfg['model']['kind'].startswith('real:')
+    exp, neu = expected_spectra(cfg)
+    rs = ref.spectra
+    n = len(exp)
+    for i in range(n):
+        row = [exp[i]] if cfg['cache'] == '1D' else exp[i]
+        for j, e in enumerate(row):
+            if cfg['cache'] == '1D':
+                got = rs[i]
+            else:
+                owned = (i * n + j) % cfg['split_jobs'] == cfg['this_job_id']
+                got = rs[i][j] if not isinstance(rs, np.ndarray) else rs[i, j]
+                if not owned:
+                    if got is not None:
+                        return 'entry (%d,%d) not owned by this split job but filled' % (i, j)
+                    continue
+            if got is None:
+                return 'entry (%d,%d) missing' % (i, j)
+            a, b = np.ma.getdata(e), np.ma.getdata(got)
+            if a.shape != b.shape:
+                return 'entry (%d,%d): shape %s, direct evaluation gives %s' % (i, j, b.shape, a.shape)
+            if (exact and not np.array_equal(a, b, equal_nan=True)) or (not exact and not np.allclose(a, b, rtol=1e-12, atol=1e-300, equal_nan=True)):
+                return 'entry (%d,%d) differs from direct evaluation of the model' % (i, j)
+    if cfg['cache'] == '1D' and neu is not None:
+        a, b = np.ma.getdata(neu), np.ma.getdata(ref.neu_spec)
+        if a.shape != b.shape or not np.allclose(a, b, rtol=0 if exact else 1e-12, atol=0, equal_nan=True):
+            return 'neu_spec differs from direct evaluation'
+    return None
+
+
+def decoy_of(cfg):
+    """a different model under the same function name, built first in the same process (history for the cache classes)"""
+    d = copy.deepcopy(cfg)
+    d['faults'] = []
+    m = d['model']
+    if m['kind'].startswith('real:'):
+        m['params'] = [p * 1.5 for p in m['params']]
+    else:
+        m['params'] = [p + 0.7 for p in m['params']] or [1.3]
+        if cfg['cache'] == '1D':
+            m['ns'] = [n + 1 for n in m['ns']]
+    d['cpus'] = 1 if cfg.get('decoy') == 'single' else 2
+    d['gamma_pts'] = min(d['gamma_pts'], 3)
+    d['split_jobs'], d['this_job_id'] = 1, 0
+    d['buggify'] = 0.0
+    return d
+
+
 def run_cfg(cfg, stream=None, decisions=None, ref=None):
+    if cfg.get('decoy'):
+        d = decoy_of(cfg)
+        try:
+            if d['cpus'] == 1:
+                reference(d)
+            else:
+                simulate(d, stream=R.Stream(12345))
+        except Exception:
+            pass
     if ref is None:
         try:
             ref = reference(cfg)
@@ -477,6 +554,13 @@ def run_cfg(cfg, stream=None, decisions=None, ref=None):
             ref = e
     out, cache, sim, ch = simulate(cfg, stream=stream, decisions=decisions)
     v = judge(cfg, out, cache, ref)
+    if v is None and not isinstance(ref, BaseException):
+        try:
+            c = check_content(cfg, ref)
+        except Exception as e:
+            c = 'direct evaluation failed: %s: %s' % (type(e).__name__, e)
+        if c:
+            v = ('cache-content', 'single-process build: ' + c + (' (after a decoy construction of another model with the same function name)' if cfg.get('decoy') else ''))
     return out, cache, ch.log, v, ref
 
 
@@ -578,7 +662,7 @@ def gen_quad_case(s, real_frac=0.0):
     """explicit description of one quadrature case: two caches (1D and 2D on the same gamma grid) + queries"""
     lo = s.choice([1e-3, 1e-2, 0.1, 0.5])
     hi = s.choice([2.0, 5.0, 20.0, 100.0])
-    add = sorted(set([s.choice([0.5, 1.0, 4.3, 10.0])] + ([s.choice([0.0, 2.0, 7.5])] if s.chance(0.5) else [])))
+    add = s.shuffle(sorted(set([s.choice([0.5, 1.0, 4.3, 10.0])] + ([s.choice([0.0, 2.0, 7.5])] if s.chance(0.5) else []))))
     const = s.chance(0.25)
     kind = 'stub_const' if const else s.choice(['stub_inj', 'stub_inj', 'stub_signed'])
     ns2 = [s.randint(1, 3), s.randint(1, 3)]
@@ -594,6 +678,9 @@ def gen_quad_case(s, real_frac=0.0):
               model={'kind': kind, 'ns': ns2, 'params': mparams, 'pts': pts, 'pop_ids': None})
     if s.chance(0.6):
         c1['gamma_pts'] = gp2     # mixtures need nothing shared but keep them comparable
+    if s.chance(0.4):
+        # the 1-D and 2-D caches of a mixture may cover different gamma ranges
+        c1['gamma_bounds'] = [s.choice([lo, lo * 3]), s.choice([hi * 2, hi * 0.5])]
     if c1['model']['ns'] != ns2:
         mix_ok = False
     else:
@@ -630,6 +717,8 @@ def gen_quad_case(s, real_frac=0.0):
         out = [a, a2, mean / a, s.loguniform(lo, 2 * hi) / a2]
         if r < 0.6:
             out = [a, a * (1 + 1e-3), mean / a, mean / a]
+        elif r < 0.75:
+            out = [a, a, mean / a, s.loguniform(lo, 2 * hi) / a]      # equal shapes, different scales
         return out + ([0.1] if s.chance(0.3) else [])
     n1, n2 = s.choice(PDF1), s.choice(PDF2)
     gpos = s.choice([a for a in add if a > 0] or [add[0]])
